@@ -335,3 +335,70 @@ func canonTypeString(t types.Type) string {
 	k = strings.ReplaceAll(k, "interface{}", "any")
 	return k
 }
+
+// fieldWriters lists the functions that write (assign, inc/dec, atomic op on,
+// or take the address of) the struct field "Struct.field".
+func (e *Engine) fieldWriters(key string) []string {
+	sn, fn, ok := strings.Cut(key, ".")
+	if !ok {
+		return nil
+	}
+	seen := map[string]bool{}
+	matchSel := func(x ast.Expr) bool {
+		for {
+			if p, ok := x.(*ast.ParenExpr); ok {
+				x = p.X
+				continue
+			}
+			break
+		}
+		sel, ok := x.(*ast.SelectorExpr)
+		if !ok || sel.Sel.Name != fn {
+			return false
+		}
+		s := e.info.Selections[sel]
+		if s == nil || s.Kind() != types.FieldVal {
+			return false
+		}
+		t := s.Recv()
+		if p, ok := t.Underlying().(*types.Pointer); ok {
+			t = p.Elem()
+		}
+		if n, ok := t.(*types.Named); ok {
+			return n.Obj().Name() == sn
+		}
+		return false
+	}
+	for q, fd := range e.funcs {
+		if e.specFns[q] {
+			continue
+		}
+		ast.Inspect(fd.Body, func(n ast.Node) bool {
+			switch s := n.(type) {
+			case *ast.AssignStmt:
+				for _, l := range s.Lhs {
+					if matchSel(l) {
+						seen[q] = true
+					}
+				}
+			case *ast.IncDecStmt:
+				if matchSel(s.X) {
+					seen[q] = true
+				}
+			case *ast.UnaryExpr:
+				if s.Op == token.AND && matchSel(s.X) {
+					seen[q] = true
+				}
+			case *ast.CompositeLit:
+				// construction sites are not writes to an existing object
+			}
+			return true
+		})
+	}
+	var out []string
+	for q := range seen {
+		out = append(out, q)
+	}
+	sort.Strings(out)
+	return out
+}
